@@ -950,6 +950,42 @@ def coarse(line):
     return " ".join(f[:2])
 
 
+# ---------------------------------------------------------------- the remote cache of a sandbox, layout-independent
+# WHERE the implementation keeps the entry of a URL is its own business (flat, fanned out, ...): the checks
+# never compute a path. An entry is planted by one run of the real fetch path (harness command `prime`: mock client,
+# refresh policy) and located by scanning the state directory for `*.toml`; the cache after a run is what the scan finds.
+
+def cache_entries(project_root):
+    """Every `*.toml` entry (a file, or a directory of that name) below the state directory of a project root."""
+    out = []
+
+    def walk(d):
+        try:
+            names = sorted(os.listdir(d))
+        except OSError:
+            return
+        for n in names:
+            p = os.path.join(d, n)
+            if n.endswith(".toml") and not n.startswith("."):
+                out.append(p)
+            elif os.path.isdir(p) and not os.path.islink(p):
+                walk(p)
+    walk(os.path.join(project_root, ".sloc-guard"))
+    walk(os.path.join(project_root, ".git", "sloc-guard"))
+    return out
+
+
+def prime_cache(env, project_root, url, body):
+    """Fill the cache entry of `url` below `project_root` with `body` through the real fetch path; -> its path."""
+    outs, rc, err = run_lines(env["impl"], ["prime\t%s\t%s\t%s" % (enc(os.path.realpath(project_root)), enc(url), enc(body))], args=["run"])
+    if not outs or not outs[0].startswith("OK "):
+        raise CheckBroken("cannot prime the remote cache through the real fetch path: %r %s" % (outs, err[-300:]))
+    p = dec(outs[0].split(" ", 1)[1])
+    if p not in [os.path.realpath(x) for x in cache_entries(project_root)]:
+        raise CheckBroken("primed entry %s is not among the scanned entries" % p)
+    return p
+
+
 # ---------------------------------------------------------------- builds
 
 def parse_dump(text):
